@@ -314,7 +314,7 @@ var limitTmpls = []limitTmpl{
 	},
 	{
 		name: "upvalues", what: "innermost function referring to n upvalues (200 locals per enclosing function)", limit: 255,
-		quick: []int{200, 400, 10_000}, more: []int{255, 256, 1_000, 65_600},
+		quick: []int{200, 400, 1_000}, more: []int{255, 256, 10_000, 65_600},
 		gen: func(n int) (string, string) {
 			var sb strings.Builder
 			levels := (n + 199) / 200
@@ -343,7 +343,7 @@ var limitTmpls = []limitTmpl{
 	},
 	{
 		name: "string-literal", what: "string literal of n bytes (short and long form)", limit: 65_535,
-		quick: []int{65_536, 1 << 20, 1 << 24}, more: []int{65_535, 1 << 22},
+		quick: []int{65_536, 1 << 20, 1 << 22}, more: []int{65_535, 1 << 24},
 		gen: func(n int) (string, string) {
 			s := strings.Repeat("a", n-1) + "z"
 			src := "local s, l = \"" + s + "\", [[" + s + "]]\nreturn #s, #l, s == l, s:sub(-2)\n"
